@@ -177,7 +177,13 @@ def run(repo, chk):
     if ok:
         ans = expand(inner[0].value, wi.node)
         cs = [c for t, c, n in fwi.items if n is inner[0]][0]
-        ok = ans.startswith("acc.intercept(") and f"{ans} is not ABSENT" in cs and not any(R in names_in(ast.parse(c, mode="eval")) for c in conds(inner[0], wi.node))
+        gate = f"{ans} is not ABSENT"
+        if isinstance(inner[0].value, ast.Name):        # the answer may be named inside the test itself: `(tmp := acc.intercept(..)) is not ABSENT`
+            for w_ in ast.walk(wi.node):
+                if isinstance(w_, ast.NamedExpr) and is_name(w_.target, inner[0].value.id):
+                    ans = norm(w_.value)
+                    gate = f"({inner[0].value.id} := {ans}) is not ABSENT"
+        ok = ans.startswith("acc.intercept(") and gate in cs and not any(R in names_in(ast.parse(c, mode="eval")) for c in conds(inner[0], wi.node))
     chk.ob("R04.4", "interpret.WorkingFrame.intercept:last-non-ABSENT-wins", ok, wi.where,
            "each handler's non-ABSENT answer overwrites the previous one (no 'first answer sticks' condition on the result)")
     loops = [n for n in walk_local(wi.node) if isinstance(n, ast.For)]
@@ -236,7 +242,9 @@ def run(repo, chk):
         chk.ob("R04.6", f"{q_}:full-defaults-to-False", default_of(repo, q_, "full") == "False", repo.func(q_).where,
                f"a rewriter function receives the plain values of the captured variables unless full=True is asked for (default of `full` in {q_}: {default_of(repo, q_, 'full')})")
     rw = repo.func("overlay.Overlay.rewrite")
-    passes = [c for c in ast.walk(rw.node) if isinstance(c, ast.Call) and is_name(c.func, "_wrapfn")]
+    # whatever the wrapper is called and wherever it is defined: the call that wraps each rewriter passes the caller's `full`
+    imm = [c for c in ast.walk(rw.node) if isinstance(c, ast.Call) and is_name(c.func, "Immediate")]
+    passes = [kw_.value for c in imm for kw_ in c.keywords if kw_.arg == "intercept" and isinstance(kw_.value, ast.Call)]
     chk.ob("R04.6", "overlay.Overlay.rewrite:full-flag-handed-to-the-wrapper", bool(passes) and all(any(k.arg == "full" and is_name(k.value, "full") for k in c.keywords) or
            (len(c.args) == 2 and is_name(c.args[1], "full")) for c in passes), rw.where, "the wrapper around each rewriter is told the caller's `full` flag")
     oe = repo.func("probe.OverridableProbe._emit")
